@@ -417,9 +417,10 @@ type Clause struct {
 }
 
 type ModItem struct {
-	Kind string // "field", "map", "mem", "cell", "all"
+	Kind string // "field", "map", "mem", "cell", "all", "every"
 	Expr *Expr  // object expression (for field: the object; Name holds the field)
 	Name string
+	Type string // for "every": the struct type
 }
 
 type FuncContract struct {
@@ -756,6 +757,14 @@ func parseModItem(s string) (ModItem, error) {
 	}
 	if s == "*" {
 		return ModItem{Kind: "all"}, nil
+	}
+	if len(fs) == 2 && fs[0] == "every" {
+		// "every T.f": field f of any object of struct type T (T may be package-qualified)
+		i := strings.LastIndex(fs[1], ".")
+		if i <= 0 {
+			return ModItem{}, fmt.Errorf("modifies every T.f: bad item %q", s)
+		}
+		return ModItem{Kind: "every", Name: fs[1][i+1:], Type: fs[1][:i]}, nil
 	}
 	e, err := parseExpr(s)
 	if err != nil {
